@@ -91,7 +91,7 @@ CHECKS["C01"] = dict(
     "return_correct_unordered, no_hang, stale_callback_noop, auto_batch_size_ge_one over the Lean model M1 of "
     "dispatch_one_batch/_dispatch/BatchCompletionCallBack/_start/_retrieve/__call__; the model's event log is compared for equality "
     "with the real Parallel driven deterministically through a controllable backend; F11 witness proved.",
-    note="M1 granularity: completion callbacks are atomic and delivered at hook points of the caller (configure, compute_batch_size, sleep, consumer pauses) - exactly the schedules harness/ctl.py executes on the real Parallel on one thread (event-log equality). Finer interleavings (every bytecode of the caller as a pre-emption point via sys.monitoring, mid-callback observations of the wait predicate, close during a callback's pull, completions during abort/between calls, native threading/multiprocessing runs) are explored by the harness and judged by oracles only - exploration, not proof. Modelled not verified: backend contract (each batch executed at most once, callback at most once), RLock, islice, Queue/deque, pickling to workers.",
+    note="M1 granularity: completion callbacks are atomic and delivered at hook points of the caller (configure, compute_batch_size, sleep, consumer pauses) - exactly the schedules harness/ctl.py executes on the real Parallel on one thread (event-log equality). Finer interleavings (every bytecode of the caller as a pre-emption point via sys.monitoring, mid-callback observations of the wait predicate, close during a callback's pull, native threading/multiprocessing runs) are explored by the harness and judged by oracles only - exploration, not proof. Modelled not verified: backend contract (each batch executed at most once, callback at most once), RLock, islice, Queue/deque, pickling to workers.",
     technique="Lean 4 proof (invariant over the dispatch/completion/retrieval transition system) + event-log correspondence under a deterministic scheduler",
     ref="6/C01, 13.2",
 )
@@ -100,7 +100,7 @@ CHECKS["C04"] = dict(
     "call_terminates, clean_after_call/close/exhaustion, stale_callbacks_are_noops, next_call_is_fresh, second_call_correct over M1, "
     "for all schedules and call sequences; same correspondence as C01 with failing tasks, failing iterator steps, fake-clock "
     "timeouts and fail/succeed/fail call sequences.",
-    note="M1 granularity: completion callbacks are atomic and delivered at hook points of the caller (configure, compute_batch_size, sleep, consumer pauses) - exactly the schedules harness/ctl.py executes on the real Parallel on one thread (event-log equality). Finer interleavings (every bytecode of the caller as a pre-emption point via sys.monitoring, mid-callback observations of the wait predicate, close during a callback's pull, completions during abort/between calls, native threading/multiprocessing runs) are explored by the harness and judged by oracles only - exploration, not proof. Modelled not verified: backend contract (each batch executed at most once, callback at most once), RLock, islice, Queue/deque, pickling to workers." + " Worker-side traceback capture is covered by native runs only.",
+    note="M1 granularity: completion callbacks are atomic and delivered at hook points of the caller (configure, compute_batch_size, sleep, consumer pauses) - exactly the schedules harness/ctl.py executes on the real Parallel on one thread (event-log equality). Finer interleavings (every bytecode of the caller as a pre-emption point via sys.monitoring, mid-callback observations of the wait predicate, close during a callback's pull, native threading/multiprocessing runs) are explored by the harness and judged by oracles only - exploration, not proof. Modelled not verified: backend contract (each batch executed at most once, callback at most once), RLock, islice, Queue/deque, pickling to workers." + " Worker-side traceback capture is covered by native runs only.",
     technique="Lean 4 proof (invariants + clean-state re-establishment) + event-log correspondence under a deterministic scheduler",
     ref="6/C04, 13.2",
 )
@@ -109,7 +109,7 @@ CHECKS["C09"] = dict(
     "lookahead_bound_partial (configuration-only when no batch completes during pre-dispatch), auto_batch_size_at_most_doubles, and "
     "the F18 counterexample, over M1; same correspondence as C01 plus look-ahead/in-flight/re-entrancy oracles and a native-thread "
     "probe with an input iterator that detects a second thread entering it.",
-    note="M1 granularity: completion callbacks are atomic and delivered at hook points of the caller (configure, compute_batch_size, sleep, consumer pauses) - exactly the schedules harness/ctl.py executes on the real Parallel on one thread (event-log equality). Finer interleavings (every bytecode of the caller as a pre-emption point via sys.monitoring, mid-callback observations of the wait predicate, close during a callback's pull, completions during abort/between calls, native threading/multiprocessing runs) are explored by the harness and judged by oracles only - exploration, not proof. Modelled not verified: backend contract (each batch executed at most once, callback at most once), RLock, islice, Queue/deque, pickling to workers." + " The unrestricted look-ahead bound is false of the code (F18, known finding); F29 known.",
+    note="M1 granularity: completion callbacks are atomic and delivered at hook points of the caller (configure, compute_batch_size, sleep, consumer pauses) - exactly the schedules harness/ctl.py executes on the real Parallel on one thread (event-log equality). Finer interleavings (every bytecode of the caller as a pre-emption point via sys.monitoring, mid-callback observations of the wait predicate, close during a callback's pull, native threading/multiprocessing runs) are explored by the harness and judged by oracles only - exploration, not proof. Modelled not verified: backend contract (each batch executed at most once, callback at most once), RLock, islice, Queue/deque, pickling to workers." + " The unrestricted look-ahead bound is false of the code (F18, known finding); F29 known.",
     technique="Lean 4 proof (size invariants of the transition system) + event-log correspondence + re-entrancy probe",
     ref="6/C09, 13.2",
 )
@@ -117,7 +117,7 @@ CHECKS["C16"] = dict(
     text="promptness (a completed head batch is yielded without consuming any schedule entry or clock tick), "
     "ordered_yields_in_order, unordered_each_exactly_once, unordered_completion_order_partial, overlap_raises, close_stops_dispatch, "
     "close_leaves_clean over M1 with an explicit generator state and consumer operations (next, close, drop, call-again, pause).",
-    note="M1 granularity: completion callbacks are atomic and delivered at hook points of the caller (configure, compute_batch_size, sleep, consumer pauses) - exactly the schedules harness/ctl.py executes on the real Parallel on one thread (event-log equality). Finer interleavings (every bytecode of the caller as a pre-emption point via sys.monitoring, mid-callback observations of the wait predicate, close during a callback's pull, completions during abort/between calls, native threading/multiprocessing runs) are explored by the harness and judged by oracles only - exploration, not proof. Modelled not verified: backend contract (each batch executed at most once, callback at most once), RLock, islice, Queue/deque, pickling to workers.",
+    note="M1 granularity: completion callbacks are atomic and delivered at hook points of the caller (configure, compute_batch_size, sleep, consumer pauses) - exactly the schedules harness/ctl.py executes on the real Parallel on one thread (event-log equality). Finer interleavings (every bytecode of the caller as a pre-emption point via sys.monitoring, mid-callback observations of the wait predicate, close during a callback's pull, native threading/multiprocessing runs) are explored by the harness and judged by oracles only - exploration, not proof. Modelled not verified: backend contract (each batch executed at most once, callback at most once), RLock, islice, Queue/deque, pickling to workers.",
     technique="Lean 4 proof (generator state machine over M1) + event-log correspondence with consumer operations",
     ref="6/C16, 13.2",
 )
